@@ -47,7 +47,26 @@ pub fn run(tape: &[u8], cx: &Cx) -> Outcome {
         }
     };
     let last = prog.ins.len() - 1;
-    let strings = sample_strings(&mut t, &prog.atoms, dfas.as_ref().map(|d| &d[last]), 6, 8);
+    let mut strings = sample_strings(&mut t, &prog.atoms, dfas.as_ref().map(|d| &d[last]), 6, 8);
+    // large loop bounds: pumped strings u^k with k just below / at / just above the bounds in the program
+    if dfas.is_none() {
+        let mut bounds: Vec<u32> = prog.ins.iter().filter(|i| i.is_loop()).map(|i| i.max_bound()).filter(|&b| b >= 5).collect();
+        bounds.sort_unstable();
+        bounds.dedup();
+        let u: Vec<u32> = (0..1 + t.choose(2)).map(|_| prog.atoms.pick_landmark(&mut t)).collect();
+        for &b in bounds.iter().take(2) {
+            for k in [b.saturating_sub(1), b, b + 1] {
+                let reps = (k as usize) / u.len().max(1);
+                if reps * u.len() <= 40 {
+                    let mut w = Vec::new();
+                    for _ in 0..reps {
+                        w.extend(&u);
+                    }
+                    strings.push(w);
+                }
+            }
+        }
+    }
     if cx.render {
         o.render = format!("{} ; strings {}", prog.render(), strings.iter().map(|s| show_str(s)).collect::<Vec<_>>().join(" "));
     }
